@@ -2,10 +2,15 @@
    Model (hand-written, compared with the implementation on every run): Db/DbModel.v = the ten tables with their UNIQUE / NOT NULL /
    FOREIGN KEY constraints, every public function of parsing/sqlite.py as the statements it issues, ADSORBATE_LIST / MATERIAL_LIST as
    state, with_connection as one transaction.  Dictionary model: Db/DbSpec.v.
-   PARTIAL: the per-operation refinement tables -> dictionary is proved here for isotherm deletion and for the retrievals; for the other
-   operations it is evaluated inside Coq on every step of every history of the run (Db/DbShow.v spec_verdict), not proved. *)
+   The per-operation refinement tables -> dictionary is PROVED for adsorbate / material upload (new and overwrite, with and without
+   auto-insert of property types), adsorbate / material deletion, isotherm deletion and the retrievals, under the well-formedness
+   invariant of the tables (Db/DbInv.v: unique names / ids / type names, counters above the ids in use, every property row has its owner
+   and type, every isotherm its material / adsorbate / type, every isotherm property / data row its isotherm), which EVERY operation
+   preserves - so the refinement composes over arbitrary histories of these operations (history_refines_partial).
+   PARTIAL: for property-type uploads / deletions and isotherm uploads the refinement is evaluated inside Coq on every step of every
+   history of the run (Db/DbShow.v spec_verdict), not proved. *)
 From Coq Require Import ZArith List Bool.
-From PG Require Import Db.DbModel Db.DbSpec Db.DbRefine.
+From PG Require Import Db.DbModel Db.DbSpec Db.DbRefine Db.DbInv Db.DbRefine2.
 Import ListNotations.
 Open Scope Z_scope.
 
@@ -82,3 +87,60 @@ Example history_hypotheses_satisfiable :
     [(0%nat, EntUp EMat 30 [] true false); (1%nat, IsoUp w_iso false false); (0%nat, IsoDel 100); (1%nat, EntGet EAds)] = true
   /\ (1 < length [w_db; w_db])%nat.
 Proof. vm_compute. split; [reflexivity|]. repeat constructor. Qed.
+
+(* ---- the well-formedness invariant of the tables and its preservation (Db/DbInv.v) *)
+Theorem fresh_database_is_well_formed : wf empty_db.
+Proof. exact empty_db_wf. Qed.
+Print Assumptions fresh_database_is_well_formed.
+(* the decision procedure the harness evaluates on the content db_create ships (the files every history starts from) is sound *)
+Theorem well_formedness_check_is_sound : forall d, wfb d = true -> wf d.
+Proof. exact wfb_sound. Qed.
+Print Assumptions well_formedness_check_is_sound.
+(* every public operation, on any well-formed content, with any registries - also when a statement fails or the process dies anywhere *)
+Theorem every_operation_preserves_well_formedness : forall o flt cf d r, wf d -> wf (DbInv.db_after (with_conn flt cf (body o) d r)).
+Proof. exact faulted_op_wf. Qed.
+Print Assumptions every_operation_preserves_well_formedness.
+(* ... hence every history over several files (induction over the history) *)
+Theorem every_history_preserves_well_formedness : forall h fs r, Forall wf fs -> Forall wf (snd (fst (run_hist fs r h))).
+Proof. exact run_hist_wf. Qed.
+Print Assumptions every_history_preserves_well_formedness.
+
+(* ---- refinement of the dictionary by the entity operations (Db/DbRefine2.v); the dictionary keeps a value as the REAL-affinity column
+   does (conv = store_real; the difference to the plain dictionary is numeric_text_property_refuted); the property names of one upload are
+   distinct (keys of a Python dict) *)
+Theorem entity_deletion_refines_dictionary : forall e name d r, wf d ->
+  match s_ent_delete e name (abs d) with
+  | Some s' => DbRefine2.oc_of (run_op (EntDel e name) d r) = OOk RUnit /\ abs (DbInv.db_after (run_op (EntDel e name) d r)) = s'
+  | None => DbRefine2.oc_of (run_op (EntDel e name) d r) = OParsing /\ DbInv.db_after (run_op (EntDel e name) d r) = d end.
+Proof. exact ent_delete_refines. Qed.
+Print Assumptions entity_deletion_refines_dictionary.
+Theorem entity_upload_refines_dictionary : forall e name ps a d r, wf d -> NoDup (map fst ps) ->
+  match s_ent_upload store_real e name ps a false (abs d) with
+  | Some s' => DbRefine2.oc_of (run_op (EntUp e name ps a false) d r) = OOk RUnit /\ abs (DbInv.db_after (run_op (EntUp e name ps a false) d r)) = s'
+  | None => DbRefine2.oc_of (run_op (EntUp e name ps a false) d r) = OParsing /\ DbInv.db_after (run_op (EntUp e name ps a false) d r) = d end.
+Proof. exact ent_upload_new_refines. Qed.
+Print Assumptions entity_upload_refines_dictionary.
+Theorem entity_overwrite_refines_dictionary : forall e name ps a d r, wf d -> NoDup (map fst ps) ->
+  match s_ent_upload store_real e name ps a true (abs d) with
+  | Some s' => DbRefine2.oc_of (run_op (EntUp e name ps a true) d r) = OOk RUnit /\ abs (DbInv.db_after (run_op (EntUp e name ps a true) d r)) = s'
+  | None => DbRefine2.oc_of (run_op (EntUp e name ps a true) d r) = OParsing /\ DbInv.db_after (run_op (EntUp e name ps a true) d r) = d end.
+Proof. exact ent_upload_overwrite_refines. Qed.
+Print Assumptions entity_overwrite_refines_dictionary.
+(* one statement for the proved write operations: content afterwards, accepted / refused, and a refusal is a parsing error that changes nothing *)
+Theorem write_operation_refines_dictionary_partial : forall o d r, wf d -> refined_write o = true ->
+  abs (DbInv.db_after (run_op o d r)) = snd (sstep store_real o (abs d))
+  /\ accepted (DbRefine2.oc_of (run_op o d r)) = fst (sstep store_real o (abs d))
+  /\ (fst (sstep store_real o (abs d)) = false -> DbRefine2.oc_of (run_op o d r) = OParsing /\ DbInv.db_after (run_op o d r) = d).
+Proof. exact write_op_refines. Qed.
+Print Assumptions write_operation_refines_dictionary_partial.
+(* any history of entity uploads / overwrites / deletions, isotherm deletions and retrievals on a file, from any well-formed content and any
+   registries: the abstraction of the file is what the dictionary predicts step after step.  Missing: property-type operations, isotherm uploads *)
+Theorem history_refines_partial : forall l d r, wf d -> forallb covered l = true ->
+  wf (run_file d r l) /\ abs (run_file d r l) = spec_file (abs d) l.
+Proof. exact DbRefine2.history_refines_partial. Qed.
+Print Assumptions history_refines_partial.
+Example history_refines_hypotheses_satisfiable :
+  forallb covered [EntUp EMat 30 [(20, [VNum 1; VNum 2]); (21, [VText 5])] true false; EntGet EMat; EntUp EMat 30 [(20, [VNum 3])] false true;
+                   EntDel EMat 30; IsoDel 7; IsoGet (mkC None None None None)] = true
+  /\ wf empty_db.
+Proof. exact DbRefine2.history_refines_hypotheses_satisfiable. Qed.
